@@ -23,7 +23,7 @@ class World:
             self.model = Model(mnames, host_fns=fns,
                                builtin_names=list(monitors.M.orig_functions) if monitors.M.installed else None)
 
-    def eval_and_judge(self, ctx, op, step, budget=10 ** 6, check_names=True, rec=None):
+    def eval_and_judge(self, ctx, op, step, budget=10 ** 6, check_names=True, rec=None, names=None, mnames=None):
         """Run one eval op on the real system and the model; compare. Returns (judged, rout, mout)."""
         src = op.get('src')
         if src is None:
@@ -33,9 +33,10 @@ class World:
         self.model.probe_calls = 0
         self.host.probe_faults = {int(pf): 'raise'} if pf else {}
         self.model.probe_faults = {int(pf): 'raise'} if pf else {}
-        rout = real_eval(self.parser, src, self.names, budget=budget, rec=rec)
-        mout = self.model.run(op['prog'])
-        judged = compare_with_model(ctx, mout, rout, self.model.host, self.names, 'step %d %r' % (step, src[:200]),
+        names = self.names if names is None else names
+        rout = real_eval(self.parser, src, names, budget=budget, rec=rec)
+        mout = self.model.run(op['prog'], names=mnames)
+        judged = compare_with_model(ctx, mout, rout, self.model.host if mnames is None else mnames, names, 'step %d %r' % (step, src[:200]),
                                     check_names=check_names)
         if self.host.log != self.model.log and judged:
             ctx.report('probe_log_mismatch', 'step %d %r: host probe log: model %s, system %s' % (
